@@ -714,6 +714,93 @@ def k8_bitcount(prog, rep):
     rep.check(ok, "K8-bitcount", "SHA256_Update: count += (uint64_t)len << 3", f.loc, "", function=f.name, construct="count64")
 
 
+
+# ---- hash-context typestate -----------------------------------------------------------------
+CTX_API = {}
+for _p in ("SHA256", "SHA1", "MD5", "HMAC_SHA256", "HMAC_SHA1", "HMAC_MD5"):
+    for _sfx in ("", "_internal"):
+        CTX_API[_p + "_Init" + _sfx] = ("init", 0)
+        CTX_API[_p + "_Update" + _sfx] = ("use", 0)
+        CTX_API[_p + "_Final" + _sfx] = ("final", 1)
+        CTX_API[_p + "_Pad" + _sfx] = ("use", 0)
+
+
+def ctx_typestate(prog, rep, units):
+    """Every streaming hash/HMAC context is absorbed into and finalised only while initialised: on every path an
+    Update/Final of context X is preceded by an Init of X (or a copy from an initialised context) with no Final of X
+    in between.  Final wipes the context (C20), so absorbing into a finalised context hashes from an all-zero state
+    instead of the algorithm's IV: every digest computed from it is wrong.  Contexts handed in by the caller are the
+    caller's obligation until this function finalises them."""
+    from ..dataflow import Solver
+    n = 0
+    for up in units:
+        u = prog.unit(up)
+        for f in u.funcs:
+            if f.file != up:
+                continue
+            sites = [c for c in f.calls() if c.callee in CTX_API]
+            if not any(CTX_API[c.callee][0] == "final" for c in sites):
+                continue
+
+            def key(c):
+                kind, ai = CTX_API[c.callee]
+                a = c.arg(ai)
+                return kind, (strip_ids(norm(a)) if a is not None else None)
+
+            def transfer(st, e):
+                if e.cls != "CallExpr":
+                    return st
+                d = dict(st)
+                if e.callee in CTX_API:
+                    kind, k = key(e)
+                    if kind == "init":
+                        d[k] = "init"
+                    elif kind == "final":
+                        d[k] = "final"
+                    return frozenset(d.items())
+                if e.callee == "memcpy" and e.arg(0) is not None and e.arg(1) is not None:
+                    dst, src = strip_ids(norm(e.arg(0))), strip_ids(norm(e.arg(1)))
+                    if src in d or dst in d:
+                        d[dst] = d.get(src, "caller")
+                        return frozenset(d.items())
+                return st
+
+            def join(a, b):
+                if a == b:
+                    return a
+                da, db = dict(a), dict(b)
+                out = {}
+                for k in set(da) | set(db):
+                    va, vb = da.get(k, "caller"), db.get(k, "caller")
+                    out[k] = va if va == vb else ("final" if "final" in (va, vb) else "caller")
+                return frozenset(out.items())
+            sv = Solver(f, frozenset(), transfer, None, join).run()
+
+            def visit(e, st):
+                nonlocal n
+                if e.cls == "CallExpr" and e.callee in CTX_API:
+                    kind, k = key(e)
+                    if kind in ("use", "final"):
+                        n += 1
+                        rv = root_var(k)
+                        local = rv is not None and rv[1] not in f.param_names() and k[0] == "&" and k[1][0] == "v"
+                        state = dict(st).get(k, "uninit" if local else "caller")
+                        rep.check(state not in ("final", "uninit"), "K9-ctxstate", "%s on %s in %s: the context is initialised" % (e.callee, show(k), f.name), e.where,
+                                  "on some path the context was finalised (and wiped) and not re-initialised before this call (it absorbs into an all-zero state instead of the IV), "
+                                  "or it is a local that was never initialised",
+                                  function=f.name, construct="ctx:" + show(k) + ":" + e.callee)
+            sv.visit(visit)
+    return n
+
+
+def strip_ids(n):
+    if isinstance(n, tuple):
+        if n and n[0] == "v":
+            return ("v", n[1])
+        return tuple(strip_ids(k) for k in n)
+    return n
+
+
 def run(tier):
     rep = report.Report("C01", tier,
         "Decided: every constant table/literal equals the value derived here from its defining formula (K1); each unrolled round "
@@ -721,7 +808,8 @@ def run(tier):
         "message index and constant, and the schedules have the specified offsets (R); padding and length placement (K2); HMAC pads, "
         "long-key threshold and lengths (K3); PBKDF2 block index, iteration structure and truncation (K4); CRC32C polynomial, initial "
         "state, table generator, step pairing and output order (K5); block-buffer writes bounded (K6); scratch regions handed to `[static N]`/restrict array parameters are large enough and disjoint (K7); "
-        "the two-word bit counters carry correctly and are encoded in the digest's byte order (K8). These fix the spec-determined "
+        "the two-word bit counters carry correctly and are encoded in the digest's byte order (K8); every streaming context is absorbed into "
+        "and finalised only while initialised, on every path (K9, typestate). These fix the spec-determined "
         "structure every output bit depends on. NOT decided: that the composition computes the standard functions for every message "
         "and partition (numerical equality over all inputs), one-shot/streaming agreement beyond the shared-structure clauses.",
         trusted=["C integer arithmetic on uint32_t wraps modulo 2^32"])
@@ -739,7 +827,9 @@ def run(tier):
         k5(prog, rep)
         k7_regions(prog, rep)
         k8_bitcount(prog, rep)
+        ctx_typestate(prog, rep, ["alg/sha256.c", "alg/sha1.c", "alg/md5.c"])
     n = len(configs)
+    rep.require_min("K9-ctxstate", 12 * n)
     rep.require_min("K1-const", 5 * n)
     rep.require_min("K3-hmac", 9 * n)
     rep.require_min("K5-crc", 5 * n)
